@@ -10,11 +10,15 @@ import (
 	"encoding/json"
 	"errors"
 	"fmt"
+	"io"
+	"net/http"
 	"reflect"
 	"strings"
+	"syscall"
 	"time"
 
 	"ebuverif/internal/h"
+	"ebuverif/internal/stores"
 	"ebuverif/vrt"
 
 	eventbus "github.com/jilio/ebu"
@@ -322,7 +326,156 @@ func cases(thorough bool) []tcase {
 	return l
 }
 
+// ---- the durable-streams store: a transport fault at the append request of one publish,
+// either before the server sees it or after the server applied it (the connection dies
+// before the response is read).
+
+type dcase struct {
+	N     int    `json:"publishes"`
+	At    int    `json:"fault_at_publish"`
+	After bool   `json:"after_server_applied"`
+	Err   string `json:"error"` // eof | reset
+}
+
+func (d dcase) String() string {
+	when := "before the server sees the request"
+	if d.After {
+		when = "after the server applied the request"
+	}
+	return fmt.Sprintf("durable-streams: %d publishes, connection error (%s) at the append of publish %d, %s", d.N, d.Err, d.At, when)
+}
+
+func runDurable(d dcase) (out []string) {
+	bad := func(f string, a ...any) { out = append(out, fmt.Sprintf(f, a...)) }
+	med, err := stores.NewMedium("durable")
+	if err != nil {
+		vrt.MachineryFault("%v", err)
+	}
+	hd, err := med.Open()
+	if err != nil {
+		vrt.MachineryFault("%v", err)
+	}
+	defer hd.Close()
+	var errs []int
+	bus := eventbus.New(eventbus.WithStore(hd.Store), eventbus.WithPersistenceErrorHandler(func(ev any, et reflect.Type, err error) {
+		errs = append(errs, evID(ev))
+	}))
+	var got []int
+	eventbus.Subscribe(bus, func(e Ev) { got = append(got, e.ID) })
+	ferr := io.ErrUnexpectedEOF
+	if d.Err == "reset" {
+		ferr = syscall.ECONNRESET
+	}
+	for i := 1; i <= d.N; i++ {
+		posts := 0
+		med.FailRequest, med.FailResponse = nil, nil
+		count := func(r *http.Request) {
+			if r.Method == http.MethodPost {
+				posts++
+			}
+		}
+		if i == d.At && !d.After {
+			med.FailRequest = func(r *http.Request) error {
+				count(r)
+				if r.Method == http.MethodPost && posts == 1 {
+					return ferr
+				}
+				return nil
+			}
+		} else if i == d.At {
+			med.FailResponse = func(r *http.Request) error {
+				count(r)
+				if r.Method == http.MethodPost && posts == 1 {
+					return ferr
+				}
+				return nil
+			}
+		} else {
+			med.FailRequest = func(r *http.Request) error { count(r); return nil }
+		}
+		before := len(errs)
+		eventbus.Publish(bus, Ev{ID: i})
+		if posts != 1 {
+			bad("the append of a publish was sent %d times to the server (want 1: never retried)", posts)
+		}
+		wantErr := 0
+		if i == d.At {
+			wantErr = 1
+		}
+		if len(errs)-before != wantErr {
+			bad("persistence error handler called %d times for a publish whose append request failed=%v", len(errs)-before, i == d.At)
+		}
+	}
+	med.FailRequest, med.FailResponse = nil, nil
+	if fmt.Sprint(got) != fmt.Sprint(seq(d.N)) {
+		bad("handlers received %v, want every event once", got)
+	}
+	// log content: every successful publish once, the failed one at most once (it is
+	// there iff the server had applied it), nothing twice
+	cnt := map[int]int{}
+	cur := eventbus.OffsetOldest
+	for i := 0; i < 2*d.N+2; i++ {
+		evs, next, err := hd.Store.Read(context.Background(), cur, 0)
+		if err != nil || len(evs) == 0 {
+			break
+		}
+		for _, e := range evs {
+			var x struct{ ID int }
+			json.Unmarshal(e.Data, &x)
+			cnt[x.ID]++
+		}
+		cur = next
+	}
+	for i := 1; i <= d.N; i++ {
+		switch {
+		case i != d.At && cnt[i] != 1:
+			bad("a successfully persisted publish is %d times in the log", cnt[i])
+		case i == d.At && cnt[i] > 1:
+			bad("the publish whose append failed is %d times in the log (retried)", cnt[i])
+		case i == d.At && !d.After && cnt[i] != 0:
+			bad("an append the server never saw is in the log")
+		}
+	}
+	return out
+}
+
+func seq(n int) []int {
+	var l []int
+	for i := 1; i <= n; i++ {
+		l = append(l, i)
+	}
+	return l
+}
+
+func durableCases() []dcase {
+	var l []dcase
+	for n := 1; n <= 3; n++ {
+		for at := 1; at <= n; at++ {
+			for _, after := range []bool{false, true} {
+				for _, e := range []string{"eof", "reset"} {
+					l = append(l, dcase{N: n, At: at, After: after, Err: e})
+				}
+			}
+		}
+	}
+	return l
+}
+
 func run(c *h.Check) {
+	for i, d := range durableCases() {
+		if !c.Mine(i) {
+			continue
+		}
+		c.Count("evaluations", 1)
+		c.Count("nontrivial", 1)
+		for _, m := range runDurable(d) {
+			when := "before-apply"
+			if d.After {
+				when = "after-apply"
+			}
+			c.Violate("persistence-failure", "durable-streams store, connection error "+when+": "+stripDigits(m), d.String()+"\n"+m, map[string]any{"durable": d})
+		}
+	}
 	for i, t := range cases(c.Thorough()) {
 		if !c.Mine(i) {
 			continue
@@ -359,7 +512,29 @@ func run(c *h.Check) {
 	}
 }
 
+func stripDigits(s string) string {
+	var b strings.Builder
+	for _, r := range s {
+		if r >= '0' && r <= '9' {
+			b.WriteByte('N')
+		} else {
+			b.WriteRune(r)
+		}
+	}
+	return b.String()
+}
+
 func replay(c *h.Check, rf *h.ReplayFile) []vrt.Violation {
+	var probe struct {
+		Durable *dcase `json:"durable"`
+	}
+	if json.Unmarshal(rf.Ops, &probe) == nil && probe.Durable != nil {
+		var vs []vrt.Violation
+		for _, m := range runDurable(*probe.Durable) {
+			vs = append(vs, vrt.Violation{Kind: "persistence-failure", Sig: rf.Sig, Detail: m})
+		}
+		return vs
+	}
 	var t tcase
 	if err := json.Unmarshal(rf.Ops, &t); err != nil {
 		vrt.MachineryFault("replay: %v", err)
